@@ -138,6 +138,42 @@ theorem ascii_roundtrip_moc (q : Qty) (hq : q.dim = 1 ∨ q.dim = 2) (w d : Nat)
   rw [n.2, hmap, mem_cellRangesOf]
   exact Moc.C05.cells_cover q hq w d hd l hv x
 
+/-- **JSON round trip, end to end (token level)**: the Aladin JSON document is the same token
+    stream restricted to single cells (`"depth": [idx, …]` per depth, the deepest depth always
+    present); for EVERY valid MOC the reader applied to the writer's tokens returns exactly `(d, M)`. -/
+theorem json_roundtrip_moc (q : Qty) (hq : q.dim = 1 ∨ q.dim = 2) (w d : Nat)
+    (hd : d ≤ q.maxDepth w) (hd255 : d ≤ 255) (l : List Rng) (hv : Valid q w d l) :
+    decodeToks q w (encodeToks d (cellItemsOf q w d l)) = .ok (d, l) := by
+  have hal := Moc.C05.aligned_of_valid q w d l hv
+  have oc := ordCells_cellsOf q hq w d hd (q.nCellsMax w) l 0 hv.1 hal hv.2.1 (Nat.zero_le _)
+  have ocr := ordCR_of_ordCells q w d _ 0 _ oc
+  have hmap : (cellItemsOf q w d l).map (rangeOfItem q w)
+      = ((cellsOf q w d l).map unitCR).map (rangeOfCellRange q w) := by
+    unfold cellItemsOf
+    rw [List.map_map, List.map_map]
+    apply List.map_congr_left
+    intro c _
+    rfl
+  have hok : ∀ it ∈ cellItemsOf q w d l, ItemOk q w it ∧ it.d ≤ d := by
+    intro it hit
+    unfold cellItemsOf at hit
+    obtain ⟨c, hc, rfl⟩ := List.mem_map.1 hit
+    obtain ⟨m1, m2, m3⟩ := ordCR_mem q w d _ 0 _ ocr (unitCR c) (List.mem_map.2 ⟨c, hc, rfl⟩)
+    refine ⟨⟨by simp only [unitCR] at m1 ⊢; omega, by simp only [unitCR] at m1 ⊢; omega, by simp, ?_⟩, m1⟩
+    exact le_nCells_of_shl_le q w c.1 (c.2 + 1) (by simp only [unitCR] at m1; omega)
+      (by simpa [rangeOfCellRange, unitCR] using m3)
+  have hdis : ((cellItemsOf q w d l).map (rangeOfItem q w)).Pairwise Disjoint := by
+    rw [hmap]; exact ordCR_pairwise q w d _ 0 _ ocr
+  rw [ascii_roundtrip q w d _ ⟨hd, hd255⟩ hok hdis]
+  refine congrArg (fun r => Except.ok (d, r)) ?_
+  have n := normalize_spec ((cellItemsOf q w d l).map (rangeOfItem q w))
+  refine Canon.ext n.1 hv.1 (fun x => ?_)
+  rw [n.2, hmap]
+  have : ((cellsOf q w d l).map unitCR).map (rangeOfCellRange q w) = (cellsOf q w d l).map (rangeOfCell q w) := by
+    rw [List.map_map]; rfl
+  rw [this]
+  exact Moc.C05.cells_cover q hq w d hd l hv x
+
 /-- The empty MOC keeps its depth: the writer emits the bare `dmax/` token. -/
 theorem ascii_roundtrip_empty (q : Qty) (w dmax : Nat) (hmax : dmax ≤ q.maxDepth w ∧ dmax ≤ 255) :
     decodeToks q w (encodeToks dmax []) = .ok (dmax, []) := by
